@@ -63,7 +63,10 @@ pub fn run_all(ctx: &mut Ctx, stream: &str) {
 		plain!(ctx, stream, f; TwinU32, TwinU8, Named, Skipper, CompactFields, UsesCompactAs, Mixed, Tree, Chain, Transparent,
 			Generic<u8, u16>, Generic<String, TwinU32>, Vec<Mixed>, Option<Named>, Box<Chain>, Vec<Skipper>, BTreeMap<u8, Mixed>,
 			MelEnum, MelGen<u32>, MelGen<u64>, MelGen<u8>, Option<MelEnum>, [MelGen<u16>; 2], (MelEnum, CompactFields), Box<CompactFields>,
-			Compact<Wrapped>, Box<Transparent>, [Transparent; 2], UnitStruct);
+			Compact<Wrapped>, Box<Transparent>, [Transparent; 2], UnitStruct,
+			TransCompact, Box<TransCompact>, [TransCompact; 2], Rc<TransCompact>, Vec<Box<[TransCompact; 2]>>, Arc<TransCompact>,
+			TransEncodedAs, Box<TransEncodedAs>, [TransEncodedAs; 3], Option<Box<(u8, TransEncodedAs)>>,
+			TransSkip, Box<TransSkip>, [TransSkip; 2]);
 		return;
 	}
 	small!(ctx, stream, f; (), bool, OptionBool, u8, i8, Option<bool>, Result<bool, bool>, Compact<u8>, Compact<u16>,
